@@ -77,6 +77,17 @@ CHECKS = {
         "bounded execution - a path exceeding the measure or the per-path wall clock is reported). Outside: longer "
         "inputs, recursion-depth exhaustion on deep nesting, mutation of real label files (a fuzzing technique).",
    ref='5 (C06)', technique='symbolic execution (symx) of lexer+parsers on fully symbolic short texts and symbolic token streams; z3'),
+ 'C07': dict(
+   text="Bounded symbolic execution of the whole chain default-load -> dump -> default-load -> dump on templates "
+        "whose symbolic parts produce the loader-only values: a quoted string of 0-2 (quick) / 0-3 symbolic "
+        "characters, an unquoted value of 1-2 / 1-3 symbolic printable characters (so it may spell a number, a "
+        "keyword, a delimiter ...), leap-second times with symbolic digits (with fraction, with a date in a "
+        "symbolic year), block keywords in every letter case, missing values in seven positions with symbolic "
+        "layout, units on a sequence / set, based integers and reals in non-canonical spellings; four encoders. "
+        "Assertions: the second load equals the spec-side normalisation of the first (C01/C02 oracle for the "
+        "encoder's dialect), its errors list is empty, and the two dumps are identical strings; encoder refusal is "
+        "allowed. The D35 class (see C05) is assumed away. Outside: corpus files, longer values.",
+   ref='5 (C07)', technique='symbolic execution (symx) of loads/dumps/loads/dumps on templates with symbolic parts; z3'),
  'C08': dict(
    text="Bounded symbolic execution of the real default loader on 12 label templates (top level, inside blocks, first/"
         "last in a block, before a block, adjacent gaps, with delimiters, with/without END, up to 5 assignments): "
